@@ -411,9 +411,10 @@ class PkgConfigWriter:
         out = Writer(out, localize_paths=False)
 
         if installed:
+            # Every install root can be named by the flags below (e.g. for a
+            # library installed with `directory=Path(..., InstallRoot.bindir)`).
             for i in path.InstallRoot:
-                if i != path.InstallRoot.bindir:
-                    self._write_variable(out, i.name, env.install_dirs[i])
+                self._write_variable(out, i.name, env.install_dirs[i])
         else:
             self._write_variable(out, 'srcdir', env.srcdir)
             # Set the builddir to be relative to the .pc file's dir so that
